@@ -28,6 +28,8 @@ def types_for(tier):
         ts = universe.rh(tier) + universe.u1_arrays(leaves) + universe.u2_arrays(universe.SH_3) + universe.u2_urefs() + universe.u1_structs(2)[::3] + universe.u3()[::2]
     else:
         ts = universe.rh(tier) + universe.universe("quick")
+    # a static extent of ZERO next to a dynamic one
+    ts = ts + [xt.Arr(xt.Sc("f64"), (0, None)), xt.Arr(xt.Sc("i16"), (None, 0)), xt.St(xt.Sc("i8"), xt.Arr(xt.Sc("f32"), (0, None)), xt.Sc("i64"))]
     out, seen = [], set()
     for t in ts:
         if t not in seen and t[0] in ("St", "A", "U") and cseam.self_consistent(t):
@@ -60,6 +62,7 @@ def shards(tier, seed):
     Sc, St, Arr, STR = xt.Sc, xt.St, xt.Arr, xt.STR
     out.append(("np-extents", [St(Arr(Sc("f64"), (3,)), Sc("f64")), St(Arr(Sc("i8"), (3,)), Sc("i64"), STR), St(Sc("i8"), Arr(universe.S_S, (2,)), Sc("f32")),
                                Arr(Arr(Sc("i8"), (3,)), (2,)), St(Arr(Sc("f64"), (2, 3)), Arr(Sc("i16"), (None,)), Sc("u8"))]))
+    out.append(("subclass-np", out[-1][1]))  # the same types, the array classes declared by a class statement with numpy extents
     # structs whose Field objects are taken over from a donor struct; array classes named by subclassing
     U = universe
     out.append(("shared-fields", [U.S_D1, U.S_D2, St(STR, U.A_DS, U.S_D1), St(Sc("i8"), STR, U.A_DD, STR), U.S2_ARRS, U.S2_NEST, Arr(U.S_D2, (2,)), St(U.A_DD, STR, U.S_D2, Sc("f64"), U.A_DS2)]))
@@ -121,8 +124,19 @@ def check_object(t, v, obj, ctx, res, vmode):
                 bad(action, "result-differs", "%s(%r) = %d, Python reports %d" % (kern.c_name, kw, int(r), c["expect"]), vpath, idx, lt)
 
     calls = list(cseam.calls_for_object(t, v, obj))
+    # what Python reports is asked of the constructor's handle for the even calls and of a view rebuilt from (buffer,
+    # offset) for the odd ones: both are "the Python accessors" of the property
+    vcalls = None
+    if t[0] != "U":
+        try:
+            vcalls = list(cseam.calls_for_object(t, v, cls._from_buffer(obj._buffer, obj._offset)))
+            if [(c["kern"].c_name, c["idx"]) for c in vcalls] != [(c["kern"].c_name, c["idx"]) for c in calls]:
+                res.skipped["view-walk-differs(C06's business)"] += 1
+                vcalls = None
+        except Exception as e:
+            res.skipped["view-walk(C06's business):" + common.exc_failure(e)] += 1
     for ci, c in enumerate(calls):
-        one_call(ci, c, len(calls))
+        one_call(ci, vcalls[ci] if (vcalls and ci % 2) else c, len(calls))
     # second series: every reference field of a struct is REBOUND through another Python object for the same bytes (a view
     # rebuilt from the buffer); what the original handle reports afterwards is compared with C again
     rebinds = [(n, ft) for n, ft in t[1] if ft[0] in ("R", "U")] if t[0] == "St" else []
@@ -169,7 +183,7 @@ def run_twins(shard, tier, seed):
 def run_shard(types, tier, seed):
     if types and types[0] == "twins":
         return run_twins(types, tier, seed)
-    if types and types[0] in ("np-extents", "shared-fields", "named-subclass"):
+    if types and types[0] in ("np-extents", "subclass-np", "shared-fields", "named-subclass"):
         xt.DECL[0] = types[0]  # this process only
         types = types[1]
     res = common.ShardResult()
